@@ -8,5 +8,6 @@ INVARIANT OnceOnly
 INVARIANT ExactLen
 INVARIANT ExhaustedNone
 INVARIANT CompleteBeforeNone
+INVARIANT NthIsRepeatedNext
 PROPERTY ExhaustedForever
 CHECK_DEADLOCK FALSE
